@@ -146,6 +146,66 @@ var zeroOf = map[string]string{"scalar": "0", "field": "0", "int": "0", "point":
 	"sopt": "((0, 0) : Nat × Nat)", "hash": "([] : Bytes)",
 	"hmac": "({ inner := [], outer := [], ipad := List.replicate 64 0, opad := List.replicate 64 0 } : HmacObj)"}
 
+// zeroTerm: the zero value of a Go type of the given kind; for struct kinds the byte-array fields get the length the Go
+// type declares (nothing about array sizes is hard-wired in the translator)
+func (d *d8) zeroTerm(t types.Type, kind string) (string, bool) {
+	if p, ok := t.(*types.Pointer); ok {
+		t = p.Elem()
+	}
+	fs, isStruct := structFields[kind]
+	st, _ := t.Underlying().(*types.Struct)
+	if !isStruct || st == nil {
+		if kind == "bytes" {
+			if arr, isArr := t.Underlying().(*types.Array); isArr {
+				return fmt.Sprintf("(List.replicate %d (0 : UInt8))", arr.Len()), true
+			}
+			return "([] : Bytes)", true
+		}
+		z, ok := zeroOf[kind]
+		return z, ok
+	}
+	var parts []string
+	for _, f := range fs {
+		var ft types.Type
+		for q := 0; q < st.NumFields(); q++ {
+			if st.Field(q).Name() == f.name {
+				ft = st.Field(q).Type()
+			}
+		}
+		if ft == nil {
+			return "", false // the Go struct no longer has the field the translator knows
+		}
+		var z string
+		switch f.kind {
+		case "curve":
+			z = "()"
+		case "hash":
+			z = "([] : Bytes)"
+		default:
+			var ok bool
+			z, ok = d.zeroTerm(ft, f.kind)
+			if !ok {
+				return "", false
+			}
+		}
+		if recordKinds[kind] {
+			parts = append(parts, f.name+" := "+z)
+		} else {
+			parts = append(parts, z)
+		}
+	}
+	if st.NumFields() != len(fs) {
+		return "", false // a field was added to or removed from the Go struct
+	}
+	if recordKinds[kind] {
+		return "({ " + strings.Join(parts, ", ") + " } : " + leanType[kind] + ")", true
+	}
+	if len(parts) == 1 {
+		return parts[0], true
+	}
+	return "((" + strings.Join(parts, ", ") + ") : " + leanType[kind] + ")", true
+}
+
 func proj(term string, i, n int) string {
 	if n == 1 {
 		return term
@@ -630,7 +690,7 @@ func (d *d8) lvalue(e ast.Expr, pre *[]*dnode) *dloc {
 	case *ast.CallExpr:
 		if id, ok := x.Fun.(*ast.Ident); ok && id.Name == "new" && len(x.Args) == 1 {
 			k, _ := d.kindOf(d.p.info.Types[x.Args[0]].Type)
-			if z, ok := zeroOf[k]; ok {
+			if z, ok := d.zeroTerm(d.p.info.Types[x.Args[0]].Type, k); ok {
 				nm := d.tmp("t")
 				*pre = append(*pre, &dnode{kind: "let", name: nm, term: z})
 				d.declare(nm, k)
@@ -1717,7 +1777,7 @@ func (d *d8) simple(s ast.Stmt, pre *[]*dnode) bool {
 					d.known[o] = false
 					continue
 				}
-				z, ok := zeroOf[k]
+				z, ok := d.zeroTerm(o.Type(), k)
 				if _, isPtr := o.Type().(*types.Pointer); isPtr && k == "big" {
 					k, z, ok = "obig", "(none : Option Nat)", true // a *big.Int variable that starts nil
 				} else if isPtr && k != "sopt" {
